@@ -1064,6 +1064,30 @@ class Interp:
         finally:
             fr.ctx.pop()
 
+    def ex_AsyncFor(self, st, fr):
+        """`async for` over a *synchronous* collection (list / tuple / deque ... as handed out by a harness stub standing for an
+        asynchronous iterator that does not suspend - the same reading comprehensions with `async for` clauses get);
+        anything else needs a contract"""
+        it = yield from self.ev(st.iter, fr)
+        if not isinstance(it, (list, tuple, collections.deque)):
+            raise EngineError(f"async for over {type(it).__name__} at line {st.lineno}: only harness-provided sequences are modelled")
+        items = list(it)
+        pos = _ListIter(items)
+        fr.ctx.append(("for", st.lineno, pos))
+        try:
+            for x in items:
+                pos.i += 1
+                yield from self.assign(st.target, x, fr)
+                try:
+                    yield from self.ex_block(st.body, fr)
+                except BreakSig:
+                    return
+                except ContinueSig:
+                    pass
+            yield from self.ex_block(st.orelse, fr)
+        finally:
+            fr.ctx.pop()
+
     def ex_Break(self, st, fr):
         raise BreakSig()
         yield
